@@ -11,13 +11,14 @@ Trace == ndJsonDeserialize(IOEnv.TRACE)
 VARIABLES l,
           hm    \* the block table of the current case's latest "reify" line (HostileOps), empty when it is not modelled
 tvars == <<l, hm>>
-NoModel == [H |-> <<>>, root |-> 0, dg |-> <<>>, ok |-> FALSE, FH |-> <<>>, froot |-> 0, fok |-> FALSE]
+NoModel == [H |-> <<>>, root |-> 0, dg |-> <<>>, ok |-> FALSE, FH |-> <<>>, froot |-> 0, fok |-> FALSE, res |-> "none", cls |-> "none", members |-> <<>>]
 TInit == l = 1 /\ hm = NoModel
 IsEv(e) == l <= Len(Trace) /\ Trace[l].ev = e /\ l' = l + 1
 TNext == \/ IsEv("crash") /\ UNCHANGED hm
          \/ IsEv("reset") /\ hm' = NoModel
          \/ IsEv("reify") /\ hm' = [H |-> Trace[l].H, root |-> Trace[l].hroot, dg |-> Trace[l].hdigits, ok |-> Trace[l].res = "hamtdir",
-                                  FH |-> Trace[l].FH, froot |-> Trace[l].fhroot, fok |-> Trace[l].res = "file"]
+                                  FH |-> Trace[l].FH, froot |-> Trace[l].fhroot, fok |-> Trace[l].res = "file",
+                                  res |-> Trace[l].res, cls |-> Trace[l].cls, members |-> Trace[l].members]
          \/ IsEv("hop") /\ UNCHANGED hm
          \/ (l = Len(Trace) + 1 /\ UNCHANGED tvars)
 TraceSpec == TInit /\ [][TNext]_tvars
@@ -31,6 +32,10 @@ Cond_NoPanic == NoCrash /\ ((Has /\ "e" \in DOMAIN Ev) => Ev.e \notin {"panic", 
 \* C14
 Cond_C14_Typed == (IsR /\ Ev.cls \in Classes) => (Ev.res = Expected(Ev.cls) /\ (KindOf(Ev.res) # "any" => Ev.kind = KindOf(Ev.res)))
 Cond_C14_Substrate == (IsR /\ IsADLResult(Ev.res)) => (Ev.subSame /\ Ev.reenc)
+\* a link map (and a plain directory) is addressable by name: exactly the names its links carry are found
+\* (C14 input classes only - the hostile cases have nameless / duplicated links)
+Cond_C14_Addressable == (IsH /\ hm.cls \in Classes /\ hm.res \in {"linkmap", "dir"} /\ Ev.op = "lookup-string" /\ Ev.key > 0) =>
+    ((Ev.info = "found") <=> (\E k \in 1 .. Len(hm.members) : hm.members[k] = Ev.key))
 \* C13: every operation on every hostile structure ends in a value or an error within its budget
 Cond_C13_Reify == IsR => Ev.res \notin {"panic", "timeout", "budget", "other"}
 Cond_C13_Op == IsH => (Ev.out \in {"value", "error"} /\ Ev.steps <= Ev.budget + 4096)
@@ -66,6 +71,7 @@ Cond_X_FileBytes == (IsH /\ hm.froot # 0 /\ hm.fok /\ Ev.op = "asbytes" /\ Ev.ou
 Chk(nm, c) == c \/ PrintT(<<"VIOL", nm, l - 1>>)
 Inv_NoPanic == Chk("Inv_NoPanic", Cond_NoPanic)
 Inv_C14_Typed_T == Chk("Inv_C14_Typed_T", Cond_C14_Typed)
+Inv_C14_Addressable == Chk("Inv_C14_Addressable", Cond_C14_Addressable)
 Inv_C14_Substrate == Chk("Inv_C14_Substrate", Cond_C14_Substrate)
 Inv_C13_Reify == Chk("Inv_C13_Reify", Cond_C13_Reify)
 Inv_C13_Op == Chk("Inv_C13_Op", Cond_C13_Op)
